@@ -218,6 +218,17 @@ CHECKS["C04"] = dict(
     technique="TLA+ Relay.tla trace validation by TLC with strict frame projection; palette-driven exploration of ids, contents and tag items")
 CHECKS["C04"]["level_override"] = "exploration"
 
+CHECKS["C19"] = dict(
+    cat="exploration", ref="DESIGN.md §5 C19", note=RELAY_NOTE + (" The junk language is a grammar of typed mutations, sampled by seed in the "
+        "quick tier and complete (589 frames) in the thorough tier; frames go straight to ws_recv, so limits the websocket server "
+        "itself imposes (message size) are not in the loop."),
+    text=("Junk.tla states the contract (a junk frame is ignored, answered, or closes that one connection cleanly; the handler never "
+          "raises; a connection kept open keeps answering; others are unaffected; on end all subscriptions are dropped and all tasks "
+          "finish). Each frame of the grammar is sent on one connection of web.start_client followed by REQ and EVENT probes, interleaved "
+          "with a well-behaved connection whose transcript is compared with the same run without the junk, on both backends; TLC judges "
+          "the observations (Junk_Trace.tla)."),
+    technique="TLA+ Junk.tla contract evaluated by TLC on recorded handler runs over a grammar of typed frame mutations; differential run for the second connection")
+
 NOT_YET = {}
 
 
